@@ -63,17 +63,17 @@ type Recorder struct {
 	changed chan struct{}
 	cut     bool
 
-	readerG   int64
-	tagGen    map[uintptr]int // tags map pointer -> generation (order of accept)
-	nextGen   int
-	genID     []string
-	genMut    []bool
-	nextRun   int
-	gRun      map[int64]int // goroutine -> run whose tail may still write
-	runGen    map[int]int
-	pausedAt  map[string]chan struct{} // scripted pauses: point+"|"+id -> release channel
-	pauseHit  map[string]chan struct{}
-	pauseMu   sync.Mutex
+	readerG  int64
+	tagGen   map[uintptr]int // tags map pointer -> generation (order of accept)
+	nextGen  int
+	genID    []string
+	genMut   []bool
+	nextRun  int
+	gRun     map[int64]int // goroutine -> run whose tail may still write
+	runGen   map[int]int
+	pausedAt map[string]chan struct{} // scripted pauses: point+"|"+id -> release channel
+	pauseHit map[string]chan struct{}
+	pauseMu  sync.Mutex
 }
 
 func NewRecorder() *Recorder {
@@ -310,8 +310,9 @@ func (l execLogger) StartExecution(ctx context.Context, tags map[string]string, 
 	r.addLocked(Event{Kind: "mwstart", Run: tok.N, Gen: tok.Gen, ID: tags["id"], Initial: initial})
 	r.mu.Unlock()
 }
-func (l execLogger) FinishExecution(ctx context.Context, tags map[string]string, delay time.Duration) {}
-func (l execLogger) Error(ctx context.Context, err error, tags map[string]string)                    {}
+func (l execLogger) FinishExecution(ctx context.Context, tags map[string]string, delay time.Duration) {
+}
+func (l execLogger) Error(ctx context.Context, err error, tags map[string]string) {}
 
 func (r *Recorder) makeCtx(w *World) graphql.MakeCtxFunc {
 	return func(ctx context.Context) context.Context {
